@@ -19,7 +19,7 @@ RULE = ("A case = scenario (2..4 actors x 1..4 IF.LDM.3 / IF.LDM.4 calls from ad
         "the in-memory back-end with the reactive service / maintenance classes, two objects pre-loaded) + schedule (which runnable actor "
         "continues at each preemption point: opcode events in dictionary_database.py, ldm_service*.py, ldm_maintenance*.py, if_ldm_3/4.py "
         "and lock operations). Quick: hypothesis schedules (sparse priority changes and dense) over drawn scenarios plus every "
-        "single-preemption schedule of 10 fixed scenarios; thorough: 20 fixed scenarios and many more random ones. Oracle: the per-actor "
+        "single-preemption schedule of 11 fixed scenarios; thorough: 22 fixed scenarios and many more random ones. Oracle: the per-actor "
         "responses and the final store / registries must equal those of some sequential order of the same calls respecting real-time "
         "precedence (exhaustive memoised search); identifiers unique; a query or notification returns only objects present at some instant "
         "of the call and all objects present throughout; no actor raises; no deadlock. Non-trivial = schedule with a context switch inside "
@@ -71,6 +71,7 @@ def build_world(s, pre16=False):
     req_sub = SubscribeDataobjectsReq(application_id=2, data_object_type=(2, 16), notify_time=TimestampIts(0), multiplicity=0)
     req_sub16 = SubscribeDataobjectsReq(application_id=16, data_object_type=(16,), notify_time=TimestampIts(0), multiplicity=0)
     if pre16:
+        ldm.if_ldm_3.register_data_provider(RegisterDataProviderReq(application_id=16, access_permissions=(AccessPermission.VAM,), time_validity=TimeValidity(100)))
         ldm.if_ldm_4.register_data_consumer(RegisterDataConsumerReq(application_id=16, access_permisions=(AccessPermission.VAM,), area_of_interest=GeometricArea(Circle(1000), None, None)))
     r0 = ldm.if_ldm_4.subscribe_data_consumer(req0, lambda resp: notifications.append((s.point, tuple(sorted(core.jdump(x.get("dataObject")) for x in resp.data_objects)))))
     return {"clock": clock, "ldm": ldm, "add_req": add_req, "pre": pre, "ts": ts, "notifications": notifications, "req_sub": req_sub, "req_sub16": req_sub16,
@@ -83,7 +84,7 @@ class Model:
     def __init__(self, pre, pre16=False):
         self.objs = {i: o for i, o in pre}
         self.next_id = max(self.objs) + 1 if self.objs else 0
-        self.providers = {2}
+        self.providers = {2, 16} if pre16 else {2}
         self.consumers = {2, 16} if pre16 else {2}
         self.subs = {"S0": 1, "SUB": 0, "SUB16": 0}      # live subscriptions per request (identical requests share the identifier)
 
@@ -389,6 +390,8 @@ FIXED = [
     {"actors": [["unsub0"], ["attend"], ["add_cam"]]},
     {"pre16": True, "actors": [["dereg_c16"], ["reg_c16", "subscribe16"]]},
     {"pre16": True, "actors": [["subscribe16", "dereg_c16"], ["reg_c16", "subscribe16"], ["attend"]]},
+    {"pre16": True, "actors": [["dereg_p16"], ["dereg_p16"]]},
+    {"pre16": True, "actors": [["dereg_c16"], ["dereg_c16"], ["add_vam"]]},
 ]
 
 
@@ -423,7 +426,7 @@ def jobs(tier, seed):
     if tier == "quick":
         for s in range(10):
             js.append({"fn": "vf.props.c16:job_random", "args": {"n": 250, "seed": seed * 1000 + s}})
-        for sc in (0, 1, 2, 3, 12, 13, 14, 15, 17, 18):
+        for sc in (0, 1, 2, 3, 12, 13, 14, 15, 17, 18, 20):
             js.append({"fn": "vf.props.c16:job_systematic", "args": {"scenario_i": sc, "shard": 0, "nshards": 1}})
     else:
         for s in range(16):
